@@ -1,5 +1,6 @@
 // Property profiles: generator weights, oracle sets, non-triviality rules.
 #include "profile.hpp"
+#include "cdf.hpp"
 #include <map>
 
 static std::map<std::string, Profile> &registry() { static std::map<std::string, Profile> r; return r; }
@@ -203,6 +204,96 @@ struct Init {
             };
             p.check = [](Program &q) { RunOpts o; return run_program(q, o); };
             p.nontrivial = [](const Program &q, const RunResult &r) { bool rej = false, acc = false; for (auto &op : q.ops) if (!op.skip && (op.kind == OP_PUT || op.kind == OP_GET || op.kind == OP_IPUT || op.kind == OP_IGET)) for (auto &a : op.acc) if (a.active) { if (a.exp_rc != NC_NOERR) rej = true; else acc = true; } return r.completed && rej && acc; };
+            p.quick_s = 60; p.thorough_s = 600;
+            reg(p);
+        }
+        {   // C04 any specification-valid file is read back exactly
+            Profile p; p.id = "C04"; p.level = "exploration";
+            p.technique = "deterministic simulation: files produced by an independent encoder in dialects the library never writes, placed in the simulated file system and read by 1..4 simulated ranks under random chunk sizes";
+            p.rule = "one seed = one random schema + data encoded by the independent CDF-1/2/5 encoder (arbitrary gaps between variables, extra header free space filled with random bytes, stale vsize, both encodings of empty lists, zero-length attributes, UTF-8 names, headers spanning several read chunks because the chunk knob is 64..4096 bytes) and opened by 1..4 ranks; expected results are what the independent decoder reads from those bytes; all inquiries and whole / partial reads of every variable are compared; non-trivial = the file has >= 1 variable with data and >= 1 attribute; distinct by file content hash x configuration";
+            p.gen = [](uint64_t seed, bool th) {
+                Program q; q.seed = seed; q.cfg.profile = "C04"; sim::Rng rng(seed * 48271 + 11);
+                GenParams g; g.max_np = 4; g.knobs = false; g.hints = (seed % 4 == 0); gen_config(rng, q, g);
+                q.cfg.sim.knobs["PNC_DEFAULT_CHUNKSIZE"] = (long)(rng.chance(0.3) ? 262144 : rng.chance(0.5) ? 4 * rng.range(16, 64) : 1 << rng.range(6, 12));
+                extern std::vector<uint8_t> random_valid_file(uint64_t, bool, bool, int);
+                q.preload.push_back({"/sim/in.nc", random_valid_file(seed, true, th, 0)});
+                int np = q.cfg.sim.nprocs;
+                Model gm; gm.init(np, 1); gm.cur_ops = &q.ops; annotate(gm, q);   // loads the preloaded file into the model's disk
+                gm.cur_ops = &q.ops;
+                auto emit = [&](Op op) -> bool { q.ops.push_back(op); gm.cur_ops = &q.ops; bool ok = model_step(gm, q.ops.back()); if (!ok) { q.ops.pop_back(); gm.opidx--; } return ok; };
+                Op o; o.kind = OP_OPEN; o.file = 0; o.name = "/sim/in.nc"; o.a[0] = rng.chance(0.3); if (!emit(o)) return q;
+                { Op i; i.kind = OP_INQ; i.file = 0; emit(i); }
+                MFile &f = gm.files[0]; GenParams gp; gp.all_forms = true;
+                for (size_t vi = 0; vi < f.vars.size(); vi++) {
+                    int reps = 1 + (int)rng.below(2);
+                    for (int k = 0; k < reps; k++) {
+                        Op g2; g2.kind = OP_GET; g2.file = 0; g2.var = (int)vi; g2.coll = true; MVar &v = f.vars[vi];
+                        for (int r = 0; r < np; r++) { Access a = (k == 0) ? Access() : gen_region_access(rng, v, f.numrecs, true, false, gp, 0); if (k == 0) { a.form = F_VAR; a.memtype = native_memtype(v.type); } g2.acc.push_back(a); }
+                        emit(g2);
+                    }
+                }
+                { Op c; c.kind = OP_CLOSE; c.file = 0; emit(c); }
+                gm.cur_ops = nullptr;
+                return q;
+            };
+            p.check = [](Program &q) { RunOpts o; o.layout_strict = false; return run_program(q, o); };
+            p.nontrivial = [](const Program &q, const RunResult &r) { int gets = 0; for (auto &op : q.ops) if (!op.skip && op.kind == OP_GET) gets++; return r.completed && gets >= 1 && r.st.bytes_read > 40; };
+            reg(p);
+        }
+        {   // C19 memory safety; malformed files fail cleanly
+            struct SeedFile { std::vector<uint8_t> bytes; long long hdr; long long first_case, ncases; };
+            static std::vector<SeedFile> pool; static long long total_cases = 0;
+            static const unsigned long long dict4[] = {0, 1, 2, 0xffffffffULL, 0x7fffffffULL, 0x80000000ULL, 0xfffffffeULL, 10, 11, 12, 6, 7, 0x00010000ULL, 0x7ffffffcULL};
+            static const int ND = 14;
+            auto build_pool = []() {
+                if (!pool.empty()) return;
+                extern std::vector<uint8_t> random_valid_file(uint64_t, bool, bool, int);
+                std::vector<std::vector<uint8_t>> files;
+                for (int ver : {1, 2, 5}) for (uint64_t k = 1; k <= 3; k++) { uint64_t sd = 1000 * ver + k; std::vector<uint8_t> b; for (int tries = 0; tries < 50; tries++) { b = random_valid_file(sd + 17 * tries, tries % 2, false, ver); if (b.size() > 120) break; } files.push_back(b); }
+                // library-written seed files: final images of three generated programs
+                for (uint64_t k = 1; k <= 3; k++) { GenParams g; g.forced_np = true; g.np = 1; g.max_data_ops = 4; g.reopen = false; Program q = gen_program(7700 + k, g, "C19-seedfile"); RunOpts o; RunResult r = run_program(q, o); auto it = r.final_files.find("/sim/f0.nc"); if (it != r.final_files.end() && it->second.size > 0 && it->second.size < 100000) files.push_back(it->second.bytes(0, it->second.size)); }
+                for (auto &b : files) {
+                    sim::Inode tmp; tmp.write(0, b.data(), b.size()); tmp.vis.size = b.size(); tmp.vis.exists = true; cdf::File d; cdf::decode_header(tmp.vis, d);
+                    SeedFile sf; sf.bytes = b; sf.hdr = std::min<long long>(d.header_len > 0 ? d.header_len : (long long)b.size(), (long long)b.size());
+                    // cases: every truncation point of header + 8 bytes, every 4-byte word x dictionary, every 8-byte word x 4 extremes
+                    sf.first_case = total_cases; sf.ncases = (sf.hdr + 9) + (sf.hdr / 4) * ND + (sf.hdr / 4) * 4; total_cases += sf.ncases; pool.push_back(sf);
+                }
+            };
+            build_pool();
+            Profile p; p.id = "C19"; p.level = "fault_enumeration"; p.space_seeds = total_cases;
+            p.fault_kinds = {"stored-file truncation", "stored-file word substitution", "stored-file random multi-field corruption"};
+            p.technique = "deterministic simulation with fault injection on stored bytes: every truncation point and every header word x extreme-value dictionary of seed files, opened by the real library built with AddressSanitizer + UndefinedBehaviorSanitizer";
+            p.rule = "seed files: 9 encoder-written (3 per format CDF-1/2/5, half in non-library dialects) and 3 library-written images; stored-byte faults applied before the file is opened: every truncation point 0..header+8, every aligned 4-byte header word replaced by each of 14 dictionary values (0,1,2,-1,2^31-1,2^31,2^32-2,tags 10/11/12,type codes 6/7,2^16,2^31-4) and every aligned 8-byte word by 4 extremes - " + std::to_string(total_cases) + " cases, one per seed 1.." + std::to_string(total_cases) + ", enumerated completely; later seeds apply 2..6 random byte/word corruptions; the damaged file is opened by 1..3 simulated ranks, every inquiry is made and the first elements of every variable are read; oracle: no sanitizer report, no crash, no assert, no hang, open returns a netCDF error code or self-consistent metadata, no single allocation above 64 MiB + 16 x file size; non-trivial = the library got as far as reading the damaged header (>= 1 MPI-IO read); the check runs the sanitizer build in both tiers";
+            p.gen = [](uint64_t seed, bool th) {
+                Program q; q.seed = seed; q.cfg.profile = "C19"; sim::Rng rng(seed * 16807 + 3);
+                q.cfg.sim.nprocs = 1 + (int)(seed % 3); q.cfg.sim.node_of.assign(q.cfg.sim.nprocs, 0); q.cfg.sim.deviate = (seed % 2) ? 0.2 : 0;
+                if (seed % 5 == 0) q.cfg.sim.knobs["PNC_DEFAULT_CHUNKSIZE"] = (long)(1 << rng.range(6, 10));
+                if (seed % 7 == 0) q.cfg.sim.env["PNETCDF_SAFE_MODE"] = "1";
+                long long c = (long long)((seed - 1) % (uint64_t)std::max<long long>(total_cases, 1)); bool lap0 = (seed - 1) < (uint64_t)total_cases;
+                size_t fi = 0; while (fi + 1 < pool.size() && pool[fi + 1].first_case <= c) fi++;
+                const SeedFile &sf = pool[fi]; std::vector<uint8_t> b = sf.bytes; long long k = c - sf.first_case; std::string damage;
+                if (lap0) {
+                    if (k < sf.hdr + 9) { b.resize((size_t)std::min<long long>(k, (long long)b.size())); damage = "truncated#" + std::to_string(k); }
+                    else if ((k -= sf.hdr + 9) < (sf.hdr / 4) * ND) { long long w = k / ND; unsigned long long v = dict4[k % ND]; damage = "word32#" + std::to_string(w * 4) + "=" + std::to_string(v); for (int i = 0; i < 4; i++) b[(size_t)(w * 4 + i)] = (uint8_t)(v >> (8 * (3 - i))); }
+                    else { k -= (sf.hdr / 4) * ND; long long w = k / 4; static const unsigned long long d8[] = {~0ULL, 0x7fffffffffffffffULL, 0x8000000000000000ULL, 0x0000000100000000ULL}; unsigned long long v = d8[k % 4]; damage = "word64#" + std::to_string(w * 4) + "=" + std::to_string(v); for (int i = 0; i < 8 && (size_t)(w * 4 + i) < b.size(); i++) b[(size_t)(w * 4 + i)] = (uint8_t)(v >> (8 * (7 - i))); }
+                } else {
+                    fi = rng.below(pool.size()); b = pool[fi].bytes; int n = 2 + (int)rng.below(5); damage = "multi";
+                    for (int i = 0; i < n && !b.empty(); i++) { size_t off = rng.below(std::min<size_t>(b.size(), (size_t)pool[fi].hdr + 16)); if (rng.chance(0.5)) b[off] ^= (uint8_t)(1u << rng.below(8)); else { unsigned long long v = dict4[rng.below(ND)]; off &= ~(size_t)3; for (int j = 0; j < 4 && off + j < b.size(); j++) b[off + j] = (uint8_t)(v >> (8 * (3 - j))); } }
+                    if (rng.chance(0.2)) b.resize(rng.below(b.size() + 1));
+                }
+                q.preload.push_back({"/sim/bad.nc", b});
+                Op o; o.kind = OP_OPENPROBE; o.file = 0; o.name = "/sim/bad.nc"; o.name2 = "seedfile" + std::to_string(fi) + ":" + damage; q.ops.push_back(o);
+                return q;
+            };
+            p.check = [](Program &q) {
+                RunOpts o; o.check_leaks = true; long long fsz = q.preload.empty() ? 0 : (long long)q.preload[0].second.size(); o.alloc_limit = (64LL << 20) + 16 * fsz;
+                q.cfg.sim.max_steps = 60000;   // a damaged header of a few hundred bytes must not need more (time related to the size of the file)
+                RunResult r = run_program(q, o);
+                if (!r.violations.empty() && !q.ops.empty() && r.violations[0].detail.find("seedfile") == std::string::npos) r.violations[0].detail += " [" + op_to_string(q.ops[0]) + "]";
+                return r;
+            };
+            p.nontrivial = [](const Program &q, const RunResult &r) { return r.st.fileio >= 1; };
+            p.assumptions = {"memory-safety verdicts come from the gcc AddressSanitizer/UndefinedBehaviorSanitizer build of the library and simulator (variant asan); uninitialised reads are not detected (MSan is unusable with uninstrumented libstdc++)", "valid programs of the other profiles are run under the same sanitizer build by their thorough tiers"};
             p.quick_s = 60; p.thorough_s = 600;
             reg(p);
         }
